@@ -5,7 +5,7 @@ StaticResource, PrefixedSubAppResource, MatchedSubAppResource), aiohttp.web_app 
 add_domain), aiohttp.web_middlewares.normalize_path_middleware.
 Model: lean/AioModel/C14.lean; theorems: lean/AioProps/C14.lean.
 """
-import asyncio, itertools, os, posixpath, re, warnings
+import asyncio, itertools, os, posixpath, random, re, warnings
 from .common.codec import st
 
 PROPERTY = "C14"
@@ -56,6 +56,7 @@ ASSUMPTIONS = [
 ]
 
 HERE_DIR = os.path.dirname(os.path.abspath(__file__))
+ONLY_SCRIPTED = bool(os.environ.get("C14_ONLY_SCRIPTED"))   # debugging: run the scripted (seed-independent) part alone
 
 CLASS_TEXTS = [r"\d+", r"[ab]+", r".*"]
 
@@ -191,7 +192,9 @@ def gen_ops(rng, hg, depth, maxops=5):
                 prev = ops[-1][2]
                 path = rng.choice([re.sub(r":[^{}]+\}", "}", prev), re.sub(r"\{(\w+)\}", r"{\1:\\d+}", prev, count=1),
                                    re.sub(r"\{x\b", "{y", prev) if "{y" not in prev else prev, prev + "/", prev.rstrip("/") or "/"])
-            if rng.random() < 0.12:
+            if rng.random() < 0.10:
+                ops.append(("G", path, hg.next()))
+            elif rng.random() < 0.12:
                 # class-based view (add_view): route method '*', the class decides which methods it serves
                 ops.append(("V", path, hg.next(16), tuple(sorted(rng.sample(VIEW_METHODS, rng.randint(0, 3))))))
             else:
@@ -232,6 +235,8 @@ def renumber(ops, hg):
             out.append(("R", op[1], op[2], hg.next()))
         elif op[0] == "V":
             out.append(("V", op[1], hg.next(16), tuple(op[3])))
+        elif op[0] == "G":
+            out.append(("G", op[1], hg.next()))
         elif op[0] == "S":
             out.append(("S", op[1], hg.next(2)))
         elif op[0] in ("SUB", "DOM"):
@@ -256,7 +261,7 @@ def _exc_code(e):
 
 def _mk_handler(hid):
     async def handler(request):
-        return None
+        return ("fn", hid, dict(request.match_info))
     handler._hid = hid
     return handler
 
@@ -292,6 +297,49 @@ async def _call_view(cls, req):
     return "E_OTHER(unexpected-return)"
 
 
+def _register(app, kind, method, path, handler, hid):
+    """one registration, spelled in one of the equivalent public ways (chosen by the handler id, so that the
+    same program always uses the same spelling)"""
+    from aiohttp import web
+    r = app.router
+    k = hid % 4
+    if kind == "G":       # the everyday spelling: GET plus an implicit HEAD route for the same handler
+        if k == 0:
+            r.add_get(path, handler)
+        elif k == 1:
+            app.add_routes([web.get(path, handler)])
+        elif k == 2:
+            rt = web.RouteTableDef()
+            rt.get(path)(handler)
+            app.add_routes(rt)
+        else:
+            app.router.add_routes([web.route("GET", path, handler)])
+    elif kind == "V":
+        if k == 0:
+            r.add_route("*", path, handler)
+        elif k == 1:
+            r.add_view(path, handler)
+        elif k == 2:
+            app.add_routes([web.view(path, handler)])
+        else:
+            rt = web.RouteTableDef()
+            rt.view(path)(handler)
+            app.add_routes(rt)
+    else:
+        short = {"GET": "add_get", "POST": "add_post", "PUT": "add_put", "HEAD": "add_head"}.get(method)
+        kw = {"allow_head": False} if method == "GET" else {}
+        if k == 1 and short:
+            getattr(r, short)(path, handler, **kw)
+        elif k == 2:
+            app.add_routes([web.route(method, path, handler, **kw)])
+        elif k == 3:
+            rt = web.RouteTableDef()
+            rt.route(method, path, **kw)(handler)
+            app.add_routes(rt)
+        else:
+            r.add_route(method, path, handler)
+
+
 class Built:
     """the real application + the driver tokens that describe the same program + bookkeeping"""
 
@@ -301,6 +349,7 @@ class Built:
         self.static_hid = {}     # id(StaticResource) -> hid
         self.keep = []           # keep objects alive (ids are used as keys)
         self.changed = []        # (operation, code, what changed): a refused operation that left a trace
+        self.alarms = []         # (signature, request or None, detail): other direct-oracle alarms raised while building / asking
 
 
 def _snapshot(apps):
@@ -309,7 +358,7 @@ def _snapshot(apps):
 
 def _refused(built, what, code, apps, names, before):
     """a refused operation must leave every involved object as it was (E_KEY is finding C14-K1)"""
-    if code in ("ok", "E_KEY"):
+    if code in ("ok", "E_KEY_K1"):
         return
     after = _snapshot(apps)
     diff = [n for n, x, y in zip(names, before, after) if x != y]
@@ -383,8 +432,13 @@ def build_real(ops, built, app=None, top=False):
             if top and not app.frozen:
                 app.freeze()
                 built.tokens.append("F")
-        elif op[0] in ("R", "V"):
-            if op[0] == "V":
+        elif op[0] in ("R", "V", "G"):
+            if op[0] == "G":
+                _, path, hid = op
+                method = "GET"
+                tok = "G|" + st(path) + "|" + str(hid)
+                handler = _mk_handler(hid)
+            elif op[0] == "V":
                 _, path, hid, defined = op
                 method = "*"
                 tok = "V|" + st(path) + "|" + str(hid) + "|" + (",".join(st(m) for m in defined) or "~")
@@ -406,12 +460,14 @@ def build_real(ops, built, app=None, top=False):
             built.tokens.append(tok)
             before = _snapshot([app])
             try:
-                app.router.add_route(method, path, handler)     # add_view(path, cls) = add_route("*", path, cls)
+                _register(app, op[0], method, path, handler, hid)
                 code = "ok"
             except Exception as e:
                 code = _exc_code(e)
+            if op[0] == "G" and code != "ok" and _snapshot([app]) != before:
+                code += "+H"
             built.codes.append(code)
-            _refused(built, "add_route", code, [app], ["application"], before)
+            _refused(built, "add_get-with-head" if op[0] == "G" else "add_route", code, [app], ["application"], before)
         elif op[0] == "S":
             _, prefix, hid = op
             p = prefix[:-1] if prefix.endswith("/") else prefix
@@ -422,7 +478,11 @@ def build_real(ops, built, app=None, top=False):
             built.tokens.append("S|" + st(prefix) + "|" + st(q) + "|" + str(hid))
             before = _snapshot([app])
             try:
-                res = app.router.add_static(prefix, HERE_DIR)
+                if hid % 4 < 2:
+                    res = app.router.add_static(prefix, HERE_DIR)
+                else:
+                    app.add_routes([web.static(prefix, HERE_DIR)])
+                    res = list(app.router.resources())[-1]
                 built.static_hid[id(res)] = hid
                 built.keep.append(res)
                 code = "ok"
@@ -447,7 +507,13 @@ def build_real(ops, built, app=None, top=False):
             except Exception as e:
                 code = _exc_code(e)
             built.codes.append(code)
+            if code == "E_KEY" and any(o[0] == "DOM" for o in sub_ops):
+                code = "E_KEY_K1"      # finding C14-K1 exactly: the mounted application itself holds an add_domain resource
             _refused(built, "add_subapp", code, [app, sub], ["parent", "sub-application"], before)
+            if code == "E_KEY_K1":
+                built.alarms.append(("C14/registration/unindex-matched-subapp-keyerror", None,
+                                     "add_subapp raised KeyError from unindex_resource: a sub-application holding an "
+                                     "add_domain resource cannot be mounted under a prefix"))
         elif op[0] == "DOM":
             domain, sub_ops = op[1], op[2]
             built.tokens.append("[")
@@ -549,7 +615,9 @@ def canon_match(built, mi):
 
 
 REQ_SEGS = ["a", "b", "ab", "a%20b", "x.y", "1", "12", "ba", "", "a.txt", "a-b", "%2F", "a%2Fb", "%252F", "%25", "%41",
-            "%C3%A9", "%D9%A3", "%0A", "aab", "c", "p", "q", "s", "c14.py", "a1", "xzy", "x.y"]
+            "%C3%A9", "%D9%A3", "%0A", "aab", "c", "p", "q", "s", "c14.py", "a1", "xzy", "x.y",
+            "%2f", "a%2fb", "%2e", "%2E%2e", "%7Bx%7D", "%7b", "a%7D", "%61", "%41b", "%zz", "%", "%2", "a%20", "%20a", "+", "a+b", "%2B",
+            ";p=1", "a;b", "a:b", "@", "~a", "a%3Fb", "a%23b", "%E9", "%C3", "a%00b", "%09"]
 VALS = {"x": ["a", "b", "1", "12", "ab", "ba", "a%20b", "%2F", "%D9%A3", "c", "a-b", "x.y"], "y": ["a", "b", "ab", "c-d", "q"],
         "tail": ["", "a", "a/b", "a/b/", "%0A", "a%2Fb"]}
 
@@ -572,7 +640,7 @@ def all_templates(ops, prefix=""):
     for op in ops:
         if op[0] == "R":
             yield prefix + op[2]
-        elif op[0] == "V":
+        elif op[0] in ("V", "G"):
             yield prefix + op[1]
         elif op[0] == "S":
             yield prefix + op[1].rstrip("/") + "/" + "f"
@@ -769,7 +837,16 @@ def spec_table(ops, codes, prefix="", views=None):
     `views` collects {handler id: methods the class defines} of the class-based views"""
     out = []
     for op in ops:
-        if op[0] == "V":
+        if op[0] == "G":
+            code = next(codes)
+            # add_get = a HEAD route and a GET route for the handler; when the GET route is refused (RuntimeError)
+            # although the HEAD route was new, the implementation keeps the HEAD route (modelled; reported by the
+            # refused-operation clause), so the HEAD route counts whenever the model says it was added: "ok" or "E_RUNTIME+H"
+            if code == "ok":
+                out.append(SpecRes("route", prefix, op[1], [("HEAD", op[2]), ("GET", op[2])], len(out)))
+            elif code == "E_RUNTIME+H":
+                out.append(SpecRes("route", prefix, op[1], [("HEAD", op[2])], len(out)))
+        elif op[0] == "V":
             code = next(codes)
             if code == "ok":
                 out.append(SpecRes("route", prefix, op[1], [("*", op[2])], len(out)))
@@ -957,23 +1034,57 @@ def judge_build(ctx, ops, codes):
     for what, code, who in getattr(codes, "changed", ()):
         ctx.violation(f"C14/registration/refused-op-changed-state/{what}", {"kind": "build", "ops": ops},
                       f"{what} was refused ({code}) but changed the route table of: {who}")
+    k1 = 0
+    for sig, req, detail in getattr(codes, "alarms", ()):
+        k1 += sig.endswith("unindex-matched-subapp-keyerror")
+        case = {"kind": "build", "ops": ops} if req is None else {"kind": "resolve", "ops": ops, "req": req, "app_level": 1}
+        ctx.violation(sig, case, detail)
+    if list(codes).count("E_KEY") > k1:
+        ctx.violation("C14/registration/unexpected-keyerror", {"kind": "build", "ops": ops},
+                      "a registration raised KeyError somewhere else than the known add_subapp-with-domain case")
     for c in codes:
-        if c == "E_KEY":
-            ctx.violation("C14/registration/unindex-matched-subapp-keyerror", {"kind": "build", "ops": ops},
-                          "add_subapp raised KeyError from unindex_resource: a sub-application holding an add_domain "
-                          "resource cannot be mounted under a prefix")
-        elif c.startswith("E_OTHER"):
+        if c.startswith("E_OTHER"):
             ctx.violation("C14/registration/unexpected-exception/" + c[8:-1], {"kind": "build", "ops": ops},
                           f"registration raised {c}")
 
 
 # ------------------------------------------------------------------------------ running programs
+async def _through_app(app, built, req):
+    """what a client of the application gets: Application._handle (resolve + SystemRoute / handler / view call) —
+    the handler's marker, or the HTTPException with its status and its Allow *header*"""
+    from aiohttp import web
+    try:
+        r = await app._handle(req)
+    except web.HTTPMethodNotAllowed as e:
+        allow = e.headers.get("Allow", "")
+        ms = [m for m in allow.split(",") if m] if allow else []
+        if ms != sorted(ms) or len(set(ms)) != len(ms):
+            return "E_OTHER(allow-header-not-sorted-unique)"
+        return "405:" + ",".join(st(m) for m in sorted(ms, key=lambda x: [ord(c) for c in x]))
+    except web.HTTPNotFound:
+        return "404"
+    except web.HTTPException as e:
+        return f"E_OTHER(status{e.status})"
+    except BaseException as e:
+        if isinstance(e, (KeyboardInterrupt, SystemExit)):
+            raise
+        return f"E_OTHER({type(e).__name__})"
+    if isinstance(r, tuple) and r and r[0] == "fn":
+        items = sorted(r[2].items(), key=lambda kv: [ord(c) for c in kv[0]])
+        return f"ok:{r[1]}:" + ",".join(st(k) + "=" + st(v) for k, v in items)
+    if isinstance(r, tuple) and r and r[0] == "called" and r[1] in meth_all():
+        mi = req.match_info
+        items = sorted(dict(mi).items(), key=lambda kv: [ord(c) for c in kv[0]])
+        return f"ok:{mi.route.handler._hid + 1 + meth_all().index(r[1])}:" + ",".join(st(k) + "=" + st(v) for k, v in items)
+    return "E_OTHER(unexpected-return)"
+
+
 class Codes(list):
     """op result codes of one program + the refused operations that changed something"""
     changed = ()
 
 
-def run_program(ctx, loop, ops, reqs, want_model=True):
+def run_program(ctx, loop, ops, reqs, want_model=True, app_level=0):
     """returns (model line, impl reply, per-request (impl canonical, path_safe))"""
     built = Built()
     with warnings.catch_warnings():
@@ -995,6 +1106,14 @@ def run_program(ctx, loop, ops, reqs, want_model=True):
                     c = f"ok:{int(head) + v}:{rest}"
                 else:
                     c = v
+            is_static = mi.http_exception is None and id(mi.route.resource) in built.static_hid
+            if not is_static and (app_level == 1 or (app_level and len(results) % app_level == 0)):
+                # the same request through the real Application._handle: that is where a user sees the answer
+                c2 = loop.run_until_complete(_through_app(app, built, mk_request(method, raw, host)))
+                if c2 != c:
+                    built.alarms.append(("C14/app/answer-differs-from-router", [method, raw, host],
+                                         f"{method} {raw}: router.resolve says {c}, Application._handle answers {c2}"))
+                    c = c2
         except Exception as e:  # resolution must never raise
             c = f"E_OTHER({type(e).__name__})"
         results.append((c, ps))
@@ -1003,14 +1122,16 @@ def run_program(ctx, loop, ops, reqs, want_model=True):
     reply = f"ops={','.join(built.codes)} dump={dump} res={';'.join(r[0] for r in results)}"
     codes = Codes(built.codes)
     codes.changed = list(built.changed)
+    codes.alarms = list(built.alarms)
     return line, reply, results, codes
 
 
-def check_tables(ctx, loop, programs, nreq, label):
+def check_tables(ctx, loop, programs, nreq, label, rng=None, app_level=4):
     lines, replies, metas = [], [], []
+    rng = rng or ctx.rng
     for ops in programs:
-        reqs = gen_requests(ctx.rng, ops, nreq)
-        line, reply, results, codes = run_program(ctx, loop, ops, reqs)
+        reqs = gen_requests(rng, ops, nreq)
+        line, reply, results, codes = run_program(ctx, loop, ops, reqs, app_level=app_level)
         lines.append(line); replies.append(reply); metas.append((ops, reqs, results, codes))
     outs = ctx.model(lines)
     for i, (ops, reqs, results, codes) in enumerate(metas):
@@ -1115,7 +1236,9 @@ def check_url_for(ctx, loop):
     from aiohttp import web
     from aiohttp.web_urldispatcher import ROUTE_RE, _requote_path, _quote_path, DynamicResource
     rng = ctx.rng
-    temps = uf_templates(rng, 150 if ctx.quick else 1500) + ["/u/{x}/v/{y}", "/{x}", "/a b/{x}", "/{x:\\d+}/{y:[ab]+}", "/t/{tail:.*}"]
+    scripted = ["/u/{x}/v/{y}", "/{x}", "/a b/{x}", "/{x:\\d+}/{y:[ab]+}", "/t/{tail:.*}", "/a/{x}/b", "/{x}/", "/a{x}", "/{x}.txt"]
+    temps = scripted + uf_templates(rng, 0 if ONLY_SCRIPTED else 150 if ctx.quick else 1500)
+    srng = random.Random(14)
     lines, impls, metas = [], [], []
     for t in temps:
         try:
@@ -1130,18 +1253,21 @@ def check_url_for(ctx, loop):
             continue
         parts = parse_template_spec(t)
         names = [p[1] for p in parts if p[0] == "var"]
-        for _ in range(6):
+        for rep in range(6 if t not in scripted else len(UF_VALUES)):
+            vrng = rng
+            if t in scripted:
+                vrng = srng
             vals = {}
             for p in parts:
                 if p[0] != "var":
                     continue
                 if p[2] == r"\d+":
-                    vals[p[1]] = rng.choice(["1", "12", "٣٤", "007"])
+                    vals[p[1]] = vrng.choice(["1", "12", "٣٤", "007"])
                 elif p[2] == r"[ab]+":
-                    vals[p[1]] = rng.choice(["a", "ab", "bba"])
+                    vals[p[1]] = vrng.choice(["a", "ab", "bba"])
                 else:
-                    vals[p[1]] = rng.choice(UF_VALUES)
-            if rng.random() < 0.05 and names:
+                    vals[p[1]] = UF_VALUES[rep] if (t in scripted and p[1] == names[0]) else vrng.choice(UF_VALUES)
+            if vrng.random() < 0.05 and names:
                 del vals[names[0]]
             try:
                 u = res.url_for(**vals)
@@ -1170,7 +1296,7 @@ def check_url_for(ctx, loop):
                 if got != vals:
                     lits = [p[1] for p in parts if p[0] == "lit"]
                     q = any(_requote_path(l) != l for l in lits)
-                    ctx.violation("C14/url_for/not-inverse/quoted-literal" if q else "C14/url_for/not-inverse",
+                    ctx.violation("C14/url_for/not-inverse/quoted-literal" if (q and got is None) else "C14/url_for/not-inverse",
                                   {"kind": "url_for", "template": t, "values": vals},
                                   f"url_for({vals}) = {u.raw_path!r}; resolving it gives {got}")
     outs = ctx.model(lines)
@@ -1238,16 +1364,17 @@ def check_middleware(ctx, loop):
     rng = ctx.rng
     cases = []
     paths = list(MW_PATHS)
-    for _ in range(60 if ctx.quick else 600):
+    for _ in range(0 if ONLY_SCRIPTED else 60 if ctx.quick else 600):
         n = rng.randint(1, 3)
         p = "".join(rng.choice(["/", "//", "///"]) + rng.choice(["a", "b", "evil.com", "%2F", "\\", "x"]) for _ in range(n))
         paths.append(p + rng.choice(["", "/", "//"]))
     flagsets = [(a, r, m) for a in (True, False) for r in (True, False) for m in (True, False) if not (a and r)]
-    for p in paths:
+    for i, p in enumerate(paths):
+        scripted = i < len(MW_PATHS)        # the scripted paths: every route set, fixed query choice, on every seed
         for fl in flagsets:
-            routes = rng.choice(MW_ROUTES) if ctx.quick else None
-            for rt in ([routes] if routes else MW_ROUTES):
-                cases.append((rt, fl, p, rng.choice(["", "", "q=//x"])))
+            routes = rng.choice(MW_ROUTES) if (ctx.quick and not scripted) else None
+            for j, rt in enumerate([routes] if routes else MW_ROUTES):
+                cases.append((rt, fl, p, ("q=//x" if (i + j) % 3 == 0 else "") if scripted else rng.choice(["", "", "q=//x"])))
     lines, impls, keep = [], [], []
     for rt, fl, p, q in cases:
         seen, outcome, resolved, ends = run_mw(loop, rt, fl, p, q)
@@ -1304,6 +1431,11 @@ def fixed_programs():
         [("DOM", "a.example", [("R", "GET", "/a", 0)], [("f", "/old"), ("fd", "*.b.example")]), ("R", "GET", "/a", 1)],
         [("R", "GET", "/a", 0), ("FREEZE",), ("R", "POST", "/a", 1), ("R", "GET", "/b", 2), ("S", "/s", 3),
          ("SUB", "/p", [("R", "GET", "/x", 5)]), ("DOM", "a.example", [("R", "GET", "/a", 6)])],
+        # add_get: GET plus implicit HEAD; (second program) the HEAD route stays when the GET route is refused
+        [("G", "/g", 0), ("R", "POST", "/g", 1), ("G", "/g/{x}", 2), ("R", "PUT", "/g/{x}", 3)],
+        [("R", "GET", "/h", 0), ("G", "/h", 1)],
+        # the route for the exact method wins over the '*' route of the same resource
+        [("R", "GET", "/m", 0), ("R", "*", "/m", 1), ("R", "PUT", "/m/{x}", 2), ("R", "*", "/m/{x}", 3), ("R", "*", "/n", 4)],
         # consecutive registrations of one template with and without a constraint are two resources
         [("R", "GET", "/f/{x:\\d+}", 0), ("R", "PUT", "/f/{x}", 1), ("R", "POST", "/g/{x}", 2), ("R", "PUT", "/g/{x:[ab]+}", 3)],
         # class-based views: 405 with the served methods for every other method token
@@ -1323,9 +1455,11 @@ def check(ctx):
     loop = asyncio.new_event_loop()
     try:
         asyncio.set_event_loop(loop)
-        check_tables(ctx, loop, fixed_programs(), 40, "fixed")
+        # scripted part: the same programs AND the same requests on every seed (own fixed PRNG), every request also
+        # through Application._handle; every mechanism the check claims to catch has its case here
+        check_tables(ctx, loop, fixed_programs(), 240, "fixed", rng=random.Random(14), app_level=1)
         programs = []
-        for _ in range(1500 if ctx.quick else 5000):
+        for _ in range(0 if ONLY_SCRIPTED else 1500 if ctx.quick else 5000):
             hg = HidGen()
             ops = gen_ops(rng, hg, rng.choice([0, 1, 1, 2, 3]))
             if rng.random() < 0.2:
@@ -1369,7 +1503,7 @@ def replay(ctx, case):
         if kind in ("resolve", "build", "table"):
             ops = _ops_from_json(case["ops"])
             reqs = [tuple(case["req"])] if "req" in case else [tuple(r) for r in case.get("reqs", [])]
-            line, reply, results, codes = run_program(ctx, loop, ops, reqs)
+            line, reply, results, codes = run_program(ctx, loop, ops, reqs, app_level=1)
             judge_build(ctx, ops, codes)
             for req, (impl, ps) in zip(reqs, results):
                 judge_resolution(ctx, ops, codes, req, impl, ps)
@@ -1387,7 +1521,7 @@ def replay(ctx, case):
                 from aiohttp.web_urldispatcher import _requote_path
                 parts = parse_template_spec(case["template"])
                 q = any(_requote_path(p[1]) != p[1] for p in parts if p[0] == "lit")
-                ctx.violation("C14/url_for/not-inverse/quoted-literal" if q else "C14/url_for/not-inverse", case,
+                ctx.violation("C14/url_for/not-inverse/quoted-literal" if (q and got is None) else "C14/url_for/not-inverse", case,
                               f"url_for = {u.raw_path!r}; resolving it gives {got}")
         elif kind == "mw":
             seen, outcome, resolved, ends = run_mw(loop, case["routes"], tuple(case["flags"]), case["path"], case["query"])
